@@ -70,7 +70,7 @@ func c13Gen(t *rapid.T) c13Case {
 	nFiles := rapid.IntRange(0, 7).Draw(t, "nfiles")
 	for i := 0; i < nFiles; i++ {
 		d := rapid.SampledFrom(existingDirs()).Draw(t, "filedir")
-		add(hx.TNode{Path: filepath.Join(d, rapid.SampledFrom(fileNames).Draw(t, "filename")), Kind: "file", Content: rapid.SampledFrom(c13Contents).Draw(t, "content") + fmt.Sprint(i)})
+		add(hx.TNode{Path: filepath.Join(d, rapid.SampledFrom(fileNames).Draw(t, "filename")), Kind: "file", Content: rapid.SampledFrom(c13Contents).Draw(t, "content") + []string{fmt.Sprint(i), "", ""}[rapid.IntRange(0, 2).Draw(t, "samecontent")]})
 	}
 	files := func() []string {
 		var out []string
